@@ -1,6 +1,6 @@
 (* C11 — the function translated from src/math/schmidt.rs on this run (Gen/SchmidtSrc.v) is the hand-written model. *)
-From Coq Require Import Reals NArith Bool.
-From SpdVerif Require Import Model.FinSum Model.Schmidt Gen.SchmidtSrc Proofs.C11_svd.
+From Coq Require Import Reals NArith Bool Lia.
+From SpdVerif Require Import Model.FinSum Model.Hom Model.Schmidt Gen.SchmidtSrc Proofs.C11_len Proofs.C11_svd.
 Local Open Scope R_scope.
 
 Lemma src_accepted_eq len : src_accepted len = accepted_len len.
@@ -33,4 +33,43 @@ Proof.
   intros svd H len a. rewrite src_schmidt_number_eq.
   pose proof (schmidt_number_spec svd H len a) as S.
   destruct (schmidt_number svd len a); [exact S|exact (proj1 S)|exact S].
+Qed.
+
+Theorem src_setup_schmidt_number_eq svd J g : src_setup_schmidt_number svd J g = setup_schmidt_number svd J g.
+Proof. apply src_schmidt_number_eq. Qed.
+
+(* on a square grid of side n the setup-level result is the trace form of the tabulated amplitudes *)
+Theorem setup_schmidt_number_square :
+  forall svd : nat -> (nat -> nat -> R) -> option (nat -> R),
+  (forall n M sv, svd n M = Some sv -> is_svd n M sv) ->
+  forall J g n, g_cols g = n -> g_rows g = n ->
+    match setup_schmidt_number svd J g with
+    | ErrNotSquare => False
+    | ErrSvd => svd n (mag_matrix n (tabulate J g)) = None
+    | OkK k => k = schmidt_K ROps n (mag_matrix n (tabulate J g))
+    end.
+Proof.
+  intros svd H J g n Hc Hr. unfold setup_schmidt_number.
+  assert (HN : grid_len g = (n * n)%nat) by (unfold grid_len; rewrite Hc, Hr; reflexivity).
+  rewrite HN. pose proof (schmidt_number_spec svd H (n * n) (tabulate J g)) as S.
+  destruct (schmidt_number svd (n * n) (tabulate J g)).
+  - exact (S n eq_refl).
+  - destruct S as [_ S]. rewrite side_of_len_square in S. exact S.
+  - destruct S as (d & Hd & ->). assert (d = n) by nia. subst. reflexivity.
+Qed.
+
+Theorem src_setup_level :
+  forall svd : nat -> (nat -> nat -> R) -> option (nat -> R),
+  (forall n M sv, svd n M = Some sv -> is_svd n M sv) ->
+  forall J g n, g_cols g = n -> g_rows g = n ->
+    src_setup_schmidt_number svd J g = schmidt_number svd (grid_len g) (tabulate J g) /\
+    match src_setup_schmidt_number svd J g with
+    | ErrNotSquare => False
+    | ErrSvd => svd n (mag_matrix n (tabulate J g)) = None
+    | OkK k => k = schmidt_K ROps n (mag_matrix n (tabulate J g))
+    end.
+Proof.
+  intros svd H J g n Hc Hr. split.
+  - apply src_setup_schmidt_number_eq.
+  - rewrite src_setup_schmidt_number_eq. apply (setup_schmidt_number_square svd H J g n Hc Hr).
 Qed.
